@@ -333,7 +333,11 @@ func c10other(c *core.Ctx, rng *core.Rng) {
 				if rng.Chance(80) {
 					v = core.Pick(rng, nf.boundaries())
 				} else {
-					v = new(big.Int).Add(nf.max(), big.NewInt(int64(1+rng.Intn(3))))
+					if rng.Bool() {
+						v = new(big.Int).Add(nf.max(), big.NewInt(int64(1+rng.Intn(3))))
+					} else {
+						v = new(big.Int).Sub(nf.min(), big.NewInt(int64(1+rng.Intn(3))))
+					}
 				}
 				if !nf.in(v) {
 					allIn = false
@@ -384,6 +388,32 @@ func c10other(c *core.Ctx, rng *core.Rng) {
 					}
 				}
 				check("float64", fltl, exactF)
+				// typed slices of Go integers
+				var il []int
+				var i64l []int64
+				var u64l []uint64
+				okI, okU := true, true
+				for _, w := range want {
+					bi, _ := new(big.Int).SetString(w, 10)
+					if !bi.IsInt64() {
+						okI = false
+					} else {
+						il = append(il, int(bi.Int64()))
+						i64l = append(i64l, bi.Int64())
+					}
+					if !bi.IsUint64() {
+						okU = false
+					} else {
+						u64l = append(u64l, bi.Uint64())
+					}
+				}
+				if okI {
+					check("[]int", il, true)
+					check("[]int64", i64l, true)
+				}
+				if okU {
+					check("[]uint64", u64l, true)
+				}
 				c.Distinct(fmt.Sprint("list", t.name, want))
 			}
 		}
